@@ -9,15 +9,21 @@ namespace Babylon.GC
 open Babylon.Core Babylon.Gen.GC
 
 /-- a non-collector action leaves the collector's variables and the pop index alone -/
-theorem frame_nonColl {c : Cfg} {s s' : State} {l : Lbl} (hl : l.isColl = false) (h : step c s l = some s') :
+theorem frame_nonColl {c : Cfg} {s s' : State} {l : Lbl} (hl : l.isColl = false) (hr : l ≠ .start)
+    (hj : l ≠ .stopJoin) (h : step c s l = some s') :
     s'.cpc = s.cpc ∧ s'.tasks = s.tasks ∧ s'.index = s.index ∧ s'.running = s.running ∧
     s'.headSeen = s.headSeen ∧ s'.popIdx = s.popIdx := by
-  cases l <;> first | (cases hl; done) | skip
+  cases l <;> first | (cases hl; done) | (exact absurd rfl hr) | (exact absurd rfl hj) | skip
   all_goals
     simp only [GC.step, stepWith] at h <;> (repeat' split at h) <;>
     first
     | contradiction
     | (injection h with h; subst h; exact ⟨rfl, rfl, rfl, rfl, rfl, rfl⟩)
+
+theorem stopJoin_needs_done {c : Cfg} {s s' : State} (h : step c s .stopJoin = some s') : s.cpc = .done := by
+  simp only [GC.step, stepWith] at h
+  split at h <;> try contradiction
+  rename_i hg; exact hg.2
 
 /-- a collector action needs the collector not to have finished -/
 theorem coll_not_done {c : Cfg} {s s' : State} {l : Lbl} (hl : l.isColl = true) (h : step c s l = some s') :
@@ -59,15 +65,13 @@ theorem coll_not_done {c : Cfg} {s s' : State} {l : Lbl} (hl : l.isColl = true) 
   | _ => cases hl
 
 /-- only the stopping thread moves `stop` (once it has been called) -/
-theorem frame_nonStop {c : Cfg} {s s' : State} {l : Lbl} (hl : l.isStop = false) (hc : s.stop ≠ .idle)
+theorem frame_nonStop {c : Cfg} {s s' : State} {l : Lbl} (hl : l.isStop = false) (hr : l.retiring = false)
     (h : step c s l = some s') : s'.stop = s.stop := by
   cases l with
   | stopReserve => cases hl
   | stopPublish => cases hl
   | stopJoin => cases hl
-  | callStop =>
-    simp only [GC.step, stepWith] at h
-    split at h <;> try contradiction
+  | callStop => cases hr
   | pop n =>
     simp only [GC.step, stepWith] at h
     split at h <;> try contradiction
@@ -142,9 +146,10 @@ theorem leLwm_minLwm {e g : Nat} {f : Lwm} (h1 : leLwm e f = true) (h2 : e ≤ g
     omega
 
 theorem floorOkB_nonColl {c : Cfg} {s s' : State} {l : Lbl} (g : Good c s) (hl : l.isColl = false)
-    (hf : floorOkB s = true) (h : step c s l = some s') : floorOkB s' = true := by
+    (hr : l.retiring = false) (hf : floorOkB s = true) (h : step c s l = some s') : floorOkB s' = true := by
   have he := (reach_inv g.reach).e
   cases l with
+  | start => cases hr
   | enterPin i =>
     simp only [GC.step, stepWith] at h
     split at h <;> try contradiction
